@@ -101,6 +101,33 @@ theorem C07_nested_in_optional (a b : Ty) (g : Val → Val) (hab : XR a b g) (hn
     XR (.opt a) (.opt b) (optMap g) :=
   XR.opt hab hnil
 
+/-- ... in a **std::array / C array** -/
+theorem C07_nested_in_array (a b : Ty) (g : Val → Val) (fa fb : Flavor) (n : Nat)
+    (hfa : fa = .array n ∨ fa = .carray n) (hfb : fb = .array n ∨ fb = .carray n)
+    (hab : XR a b g) (ha : a.integral = false) (hb : b.integral = false) :
+    XR (.seq fa a) (.seq fb b) (fun v => .list (v.elems.map g)) :=
+  XR.array fa fb n hfa hfb hab ha hb
+
+/-- ... as the mapped value of a **map / unordered_map** -/
+theorem C07_nested_in_map (k a b : Ty) (g : Val → Val) (o o' : Bool) (hk : XR k k id) (hab : XR a b g) :
+    XR (.map o k a) (.map o' k b) (fun v => .list (v.elems.map (kvMap g))) :=
+  XR.map o o' hk hab
+
+/-- ... in a **Variant** alternative -/
+theorem C07_nested_in_variant (abfs : List (Ty × Ty × (Val → Val))) (hx : ∀ x ∈ abfs, XR x.1 x.2.1 x.2.2)
+    (hlen : abfs.length ≤ 2 ^ 31) :
+    XR (.variant (abfs.map (·.1))) (.variant (abfs.map (·.2.1))) (varMap (abfs.map (·.2.2))) :=
+  XR.variant abfs hx hlen
+
+/-- ... in a **Result** value -/
+theorem C07_nested_in_result (a b : Ty) (g : Val → Val) (en : Nat) (ek : IntKind) (hab : XR a b g)
+    (herr : matchP b 0xb6 = false) : XR (.result en ek a) (.result en ek b) (resMap g) :=
+  XR.result en ek hab herr
+
+/-- ... behind a **value wrapper** on either side -/
+theorem C07_nested_in_wrapper (a b : Ty) (g : Val → Val) (hab : XR a b g) :
+    XR (.wrap a) (.wrap b) g := XR.wrap_l (XR.wrap_r hab)
+
 /-- ... in **another table's entry**: `C07_cross_version_xr` itself, with `F id` the inner pair's
 projection. Worked instance (hypotheses discharged): an outer table whose entry 1 holds a table
 that gained entry 7 and lost entry 1, next to an unchanged entry 2; the outer reader also lists
